@@ -1611,6 +1611,12 @@ class Parameter(_ParameterBase):
                     obj.param._update_ref(name, None)
 
             if is_async or val is Undefined:
+                # a reference that yields nothing right now is refused like
+                # any other value where assignment is not allowed
+                if self.readonly:
+                    raise TypeError("Read-only parameter '%s' cannot be modified" % name)
+                elif self.constant and obj._param__private.initialized:
+                    raise TypeError("Constant parameter '%s' cannot be modified" % name)
                 update_link()
                 return
 
